@@ -180,6 +180,15 @@ var richForms = []richForm{
 	{"cte.chain", true, false, func(c *fw.Case, d *richDoc, vf string) string {
 		return "WITH c1 AS (SELECT rid, n1, s1 FROM t1), c2 AS (SELECT rid, " + vf + "(n1) AS v FROM c1 WHERE " + vf + "(n1) > " + numConst(c, d) + ") SELECT * FROM c2"
 	}},
+	{"cte.union", true, false, func(c *fw.Case, d *richDoc, vf string) string {
+		return "WITH c1 AS (SELECT rid, " + vf + "(n1) AS v FROM t1) SELECT v FROM c1 " + gen.Pick(c.R, []string{"UNION", "UNION ALL"}) + " SELECT v FROM c1 WHERE v > " + numConst(c, d)
+	}},
+	{"cte.union3", true, false, func(c *fw.Case, d *richDoc, vf string) string {
+		return "WITH c1 AS (SELECT n1 FROM t1), c2 AS (SELECT " + vf + "(un1) AS un1 FROM u1) SELECT n1 AS v FROM c1 UNION SELECT un1 AS v FROM c2 UNION ALL SELECT n1 AS v FROM c1"
+	}},
+	{"derived.join", true, true, func(c *fw.Case, d *richDoc, vf string) string {
+		return "SELECT * FROM (WITH a AS (SELECT rid, " + vf + "(n1) AS n1 FROM t1) SELECT * FROM a) x " + gen.Pick(c.R, []string{"JOIN", "LEFT JOIN"}) + " (WITH b AS (SELECT un1 FROM u1) SELECT * FROM b) y ON x.n1 = y.un1"
+	}},
 	{"derived", true, false, func(c *fw.Case, d *richDoc, vf string) string {
 		return "SELECT q.v, q.rid FROM (SELECT rid, " + vf + "(n1) AS v FROM t1) q WHERE q.v > " + numConst(c, d)
 	}},
